@@ -11,6 +11,7 @@ import (
 	"unicode/utf16"
 	"verif/internal/src"
 
+	"github.com/mandykoh/prism/meta"
 	"github.com/mandykoh/prism/meta/icc"
 	"github.com/mandykoh/prism/meta/jpegmeta"
 	"github.com/mandykoh/prism/meta/pngmeta"
@@ -284,6 +285,18 @@ func check(c Case) (kind, what string) {
 				err = fmt.Errorf("jpegmeta.Load: %w", lerr)
 				return
 			}
+			p, err = md.ICCProfile()
+		})
+	case "metadata-reused":
+		// one metadata value that first held another profile (and was asked for it) and is then given this one
+		other := build.SimpleProfile(build.TextDesc("the profile this value held before"), 40)
+		pn, msg = ev.Guard(func() {
+			md := &meta.Data{}
+			md.SetICCProfileData(other)
+			if p0, e0 := md.ICCProfile(); e0 == nil && p0 != nil {
+				p0.Description()
+			}
+			md.SetICCProfileData(prof)
 			p, err = md.ICCProfile()
 		})
 	case "buffer-reused":
@@ -613,7 +626,7 @@ func gen(rt *rapid.T) Case {
 		}
 		c.Gap = rapid.SampledFrom([]int{0, 0, 2, 4}).Draw(rt, "gap")
 	}
-	c.Via = rapid.SampledFrom([]string{"reader", "reader", "positioned", "positioned", "png", "jpeg", "buffer-reused"}).Draw(rt, "via")
+	c.Via = rapid.SampledFrom([]string{"reader", "reader", "positioned", "positioned", "png", "jpeg", "buffer-reused", "metadata-reused"}).Draw(rt, "via")
 	return c
 }
 
